@@ -7,6 +7,8 @@ using 6-bit immediates for 64-bit architectures.
 
 from __future__ import annotations
 
+from typing import ClassVar
+
 from xdsl.backend.assembly_printer import AssemblyPrinter
 from xdsl.dialects.builtin import (
     I64,
@@ -169,6 +171,8 @@ class BclrIOp(RV64RdRsImmShiftOperation):
 
     name = "rv64.bclri"
 
+    ZERO_IMMEDIATE_IS_IDENTITY: ClassVar[bool] = False
+
     def py_operation(self, rs1: IntegerAttr[I64]) -> IntegerAttr[I64]:
         assert isinstance(self.immediate, IntegerAttr)
         return IntegerAttr(rs1.value.data & (~(1 << self.immediate.value.data)), i64)
@@ -185,6 +189,8 @@ class BextIOp(RV64RdRsImmShiftOperation):
     """
 
     name = "rv64.bexti"
+
+    ZERO_IMMEDIATE_IS_IDENTITY: ClassVar[bool] = False
 
     def py_operation(self, rs1: IntegerAttr[I64]) -> IntegerAttr[I64]:
         assert isinstance(self.immediate, IntegerAttr)
@@ -205,6 +211,8 @@ class BinvIOp(RV64RdRsImmShiftOperation):
 
     name = "rv64.binvi"
 
+    ZERO_IMMEDIATE_IS_IDENTITY: ClassVar[bool] = False
+
     def py_operation(self, rs1: IntegerAttr[I64]) -> IntegerAttr[I64]:
         assert isinstance(self.immediate, IntegerAttr)
         return IntegerAttr(rs1.value.data ^ (1 << self.immediate.value.data), i64)
@@ -221,6 +229,8 @@ class BsetIOp(RV64RdRsImmShiftOperation):
     """
 
     name = "rv64.bseti"
+
+    ZERO_IMMEDIATE_IS_IDENTITY: ClassVar[bool] = False
 
     def py_operation(self, rs1: IntegerAttr[I64]) -> IntegerAttr[I64]:
         assert isinstance(self.immediate, IntegerAttr)
